@@ -55,7 +55,20 @@ ZIP_OF = z3.Function("zip_container_of", BytesIO, ZipFile)
 HASM = z3.Function("zip_has_member", ZipFile, S, B)
 MBLOB = z3.Function("zip_member_bytes", ZipFile, S, Blob)
 TEXT = z3.Function("utf8_text_of", Blob, S)                   # decoded text of a member (UTF-8 assumed)
-HAS_ENC_ELEM = z3.Function("xml_has_encryption_data_element", S, B)   # the manifest *tree* has an encryption-data element
+XmlT = ext_sort("XmlElem")
+XMLOK = z3.Function("xml_well_formed", Blob, B)               # ElementTree view of a member: parses, ...
+XROOT = z3.Function("xml_root", Blob, XmlT)
+NEL = z3.Function("xml_iter_len", XmlT, I)                    # ... root.iter() = all elements in document order
+EL = z3.Function("xml_iter_elem", XmlT, I, XmlT)
+TAG = z3.Function("xml_tag", XmlT, S)                         # Clark notation {namespace}local
+LOCAL = z3.Function("xml_local_name", S, S)                   # tag.rsplit('}', 1)[-1]
+
+
+def HAS_ENC_ELEM(blob):
+    """The manifest *tree* has an element whose local name is encryption-data."""
+    k = z3.Int("k!encel")
+    r = XROOT(blob)
+    return z3.And(XMLOK(blob), z3.Exists([k], z3.And(k >= 0, k < NEL(r), LOCAL(TAG(EL(r, k))) == sv("encryption-data"))))
 
 NZ = z3.Function("zip_n", ZipFile, I)                         # infolist(): finite entry sequence
 INFO = z3.Function("zip_info", ZipFile, I, ZipInfo)
@@ -155,12 +168,16 @@ def spec_7z_folders_enc(rv):
     return z3.Exists([i, j], z3.And(i >= 0, i < NFOLD(rv), j >= 0, j < NCOD(FOLDER(rv, i)), is_aes(CID(FOLDER(rv, i), j))))
 
 
+def manifest_blob(f):
+    return MBLOB(ZIP_OF(f), sv(MANIFEST))
+
+
 def manifest_text(f):
-    return TEXT(MBLOB(ZIP_OF(f), sv(MANIFEST)))
+    return TEXT(manifest_blob(f))
 
 
 def spec_odf(f):
-    return z3.And(ISZIP(f), HASM(ZIP_OF(f), sv(MANIFEST)), HAS_ENC_ELEM(manifest_text(f)))
+    return z3.And(ISZIP(f), HASM(ZIP_OF(f), sv(MANIFEST)), HAS_ENC_ELEM(manifest_blob(f)))
 
 
 # ------------------------------------------------------ assumed library models --
@@ -236,7 +253,11 @@ def m_zip_read(ex, st, obj, args, kwargs, node):
         h(ex, st, obj, node)
     st.ghost["zip_reads"] = st.ghost.get("zip_reads", 0) + 1
     t, cnd = ex.uni.any_exception()
-    bad = st.fork().assume(z3.And(cnd, z3.Not(ex.uni.subclass_term(t, "KeyError"))))
+    # zipfile raises RuntimeError itself only for an encrypted member ("password required" / "Bad password"); its subclass
+    # NotImplementedError for unsupported methods / features
+    bad = st.fork().assume(z3.And(cnd, z3.Not(ex.uni.subclass_term(t, "KeyError")),
+                                  z3.Implies(z3.And(ex.uni.subclass_term(t, "RuntimeError"), z3.Not(ex.uni.subclass_term(t, "NotImplementedError"))),
+                                             spec_zip_enc(obj.t))))     # (RecursionError: PY-MEM, not modelled)
     ex.raise_in(bad, VExc(t, {"site": f"{ex.loc(node)} ZipFile.read"}))
     ex.exc_any_sites.append(f"{ex.loc(node)} ZipFile.read")
     a = args[0]
@@ -256,8 +277,46 @@ def m_blob_decode(ex, st, obj, args, kwargs, node):
     return [(st, VStr(TEXT(obj.t)))]
 
 
+def m_et_fromstring(ex, st, args, kwargs, node):
+    """(defusedxml) ElementTree.fromstring(bytes): ASSUMED -- ParseError iff not well formed; may raise other errors
+    (forbidden DTD / entities); else the root of the tree."""
+    a = args[0] if args else None
+    t, cnd = ex.uni.any_exception()
+    pe = [ex.uni.index[n] for n in ("ParseError", "ET.ParseError") if ex.uni.known(n)]      # two names of the one class
+    is_pe = z3.Or([ex.uni.subclass_term(t, ex.uni.names[i]) for i in pe])
+    other = st.fork().assume(z3.And(cnd, z3.Not(is_pe)))
+    ex.raise_in(other, VExc(t, {"site": f"{ex.loc(node)} ElementTree.fromstring"}))
+    tp = z3.Int(fresh_name("exc"))
+    bad = st.fork().assume(z3.Or([tp == i for i in pe]))
+    if not (isinstance(a, VExt) and a.sort == "Blob"):
+        ex.raise_in(bad, VExc(tp, {"site": "ElementTree.fromstring"}))
+        return [(st, VExt("XmlElem"))]
+    ex.raise_in(bad.assume(z3.Not(XMLOK(a.t))), VExc(tp, {"site": "ElementTree.fromstring (not well formed)"}))
+    return [(st.assume(XMLOK(a.t)), VExt("XmlElem", XROOT(a.t)))]
+
+
+def m_xml_iter(ex, st, obj, args, kwargs, node):
+    if args:
+        return ex.havoc_call(st, "Element.iter(tag)", args, node)
+    st.assume(NEL(obj.t) >= 0)
+    return [(st, VSeq(NEL(obj.t), lambda k: VExt("XmlElem", EL(obj.t, k)), "XmlElem"))]
+
+
+def m_str_rsplit(ex, st, args, kwargs, node):
+    """s.rsplit('}', 1): the last piece is the local name of a Clark-notation tag."""
+    s_ = args[0]
+    sep = args[1].const() if len(args) > 1 and isinstance(args[1], VStr) else None
+    mx = args[2].const() if len(args) > 2 and isinstance(args[2], VInt) else None
+    if sep == "}" and mx == 1:
+        return [(st, VTuple([VStr(z3.String(fresh_name("ns"))), VStr(LOCAL(s_.t))]))]
+    return [(st, VUnk("str.rsplit"))]
+
+
 def install_container_models(reg):
     common.install_bytesio(reg)
+    reg.method_models[("XmlElem", "iter")] = m_xml_iter
+    reg.attr_models[("XmlElem", "tag")] = lambda ex, st, o: VStr(TAG(o.t))
+    reg.ext_models["str.rsplit"] = m_str_rsplit
     reg.ext_models["olefile.isOleFile"] = m_isOleFile
     reg.ext_models["olefile.OleFileIO"] = m_OleFileIO
     reg.ext_models[("with", "OleFile")] = with_passthrough
@@ -348,6 +407,8 @@ class C08Executor(readfile.ReadFileExecutor):
     def call(self, st, f, args, kwargs, node):
         if isinstance(f, VFunc) and f.how == "classattr" and f.a == "int" and f.b == "from_bytes":
             return self.int_from_bytes(st, args, kwargs, node)
+        if isinstance(f, VFunc) and f.how == "classattr" and str(f.a).endswith("ElementTree") and f.b == "fromstring":
+            return m_et_fromstring(self, st, args, kwargs, node)
         return super().call(st, f, args, kwargs, node)
 
     def int_from_bytes(self, st, args, kwargs, node):
@@ -465,6 +526,25 @@ class C08Executor(readfile.ReadFileExecutor):
         if h is not None:
             h(self, st, v, node)
 
+    def exc_any(self, st, site, also=()):
+        # ASSUMED: reading an attribute of / comparing plain data objects (ZipInfo fields, config numbers) raises at most
+        # AttributeError / TypeError -- not an arbitrary exception
+        import re as _re
+        if _re.search(r" \.\w+ on unknown$", site) or site.endswith(" compare unknown"):
+            t, c = self.uni.any_exception()
+            s2 = st.fork().assume(z3.And(c, z3.Or(self.uni.subclass_term(t, "AttributeError"), self.uni.subclass_term(t, "TypeError"))))
+            self.raise_in(s2, VExc(t, {"site": site}))
+            self.exc_any_sites.append(site)
+            return
+        name, dedicated = aes_signal(self.module.repo)
+        if dedicated and self.uni.known(name) and "SevenZipFile" not in site:
+            # ASSUMED: a dedicated encryption-signal class of sevenzip.py is raised by the 7z reader only
+            t, c = self.uni.any_exception()
+            self.raise_in(st.fork().assume(z3.And(c, z3.Not(self.uni.subclass_term(t, name)))), VExc(t, {"site": site}))
+            self.exc_any_sites.append(site)
+            return
+        return super().exc_any(st, site, also)
+
     def havoc_everything(self, st):
         # An abstracted expression cannot rebind local names; handles of library objects (the input BytesIO, the opened
         # container / reader) stay bound to the same object.  ASSUMED: it does not write into the input bytes (C06).
@@ -498,8 +578,7 @@ EXECUTOR_KW = {}
 def xml_axiom(f):
     """ASSUMED XML fact: an element named (prefix:)encryption-data occurs in the tree only if that
     name occurs literally in the serialised text (element names cannot be escaped)."""
-    m = manifest_text(f)
-    return z3.Implies(HAS_ENC_ELEM(m), z3.Contains(m, sv("encryption-data")))
+    return z3.Implies(HAS_ENC_ELEM(manifest_blob(f)), z3.Contains(manifest_text(f), sv("encryption-data")))
 
 
 def xls_loop_view(lc):
@@ -743,6 +822,39 @@ def m_seek2(ex, st, obj, args, kwargs, node):
     return common.m_seek(ex, st, obj, args, kwargs, node)
 
 
+def aes_signal(repo=None):
+    """(class name raised by _apply_decoder in its AES branch, dedicated?) -- read from the AST of the checked tree.
+    `dedicated`: a strict subclass of Bad7zFile that no other `raise` of sevenzip.py uses, so that it identifies encryption."""
+    try:
+        m = loader.module(SEVEN, repo)
+        f = m.functions.get("SevenZipReader._apply_decoder")
+        name = None
+        for n in ast.walk(f):
+            if isinstance(n, ast.If) and "CODER_AES_PREFIX" in ast.unparse(n.test):
+                for r in n.body:
+                    if isinstance(r, ast.Raise) and isinstance(r.exc, ast.Call):
+                        name = dotted(r.exc.func)
+        if not name:
+            return "Bad7zFile", False
+        uses = [n for n in ast.walk(m.tree) if isinstance(n, ast.Raise) and isinstance(n.exc, ast.Call) and dotted(n.exc.func) == name]
+        cls = m.classes.get(name)
+        strict = cls is not None and any(ast.unparse(b) == "Bad7zFile" for b in cls.bases)
+        return name, bool(strict and len(uses) == 1)
+    except Exception:  # noqa
+        return "Bad7zFile", False
+
+
+def _exc_any_unless_signal(ex, st, site, aes_cond):
+    """EXC-ANY, except that the dedicated AES signal class (if the code has one) is raised only when an AES coder exists."""
+    name, dedicated = aes_signal(ex.module.repo)
+    if not dedicated or not ex.uni.known(name):
+        return ex.exc_any(st, site)
+    t, c = ex.uni.any_exception()
+    s2 = st.fork().assume(z3.And(c, z3.Implies(ex.uni.subclass_term(t, name), aes_cond)))
+    ex.raise_in(s2, VExc(t, {"site": site}))
+    ex.exc_any_sites.append(site)
+
+
 def new_7z(ex, st, args, kwargs, node):
     """SevenZipFile(f, 'r'): stores its arguments (the archive is parsed by __enter__)."""
     f = _fl(args[0]) if args else None
@@ -761,9 +873,13 @@ def with_7z(ex, st, cm, phase):
     bad = st.fork()
     if f is not None:
         b2 = st.fork().assume(HDRAES(f))
-        ex.raise_in(b2, VExc(z3.IntVal(ex.uni.index["Bad7zFile"]), {"site": "SevenZipFile.__enter__ (AES-coded header)"}))
+        sig = aes_signal(ex.module.repo)[0]
+        ex.raise_in(b2, VExc(z3.IntVal(ex.uni.index[sig if ex.uni.known(sig) else "Bad7zFile"]), {"site": "SevenZipFile.__enter__ (AES-coded header)"}))
         st.assume(z3.Not(HDRAES(f)))
-    ex.exc_any(bad, "SevenZipFile.__enter__")
+        bad.assume(z3.Not(HDRAES(f)))       # HDRAES = "the parse reaches an AES coder of the encoded header": that case is the fork above
+        _exc_any_unless_signal(ex, bad, "SevenZipFile.__enter__", z3.BoolVal(False))
+    else:
+        ex.exc_any(bad, "SevenZipFile.__enter__")
     st.ghost["szf_entered"] = True
     return [(st, cm)]
 
@@ -779,7 +895,7 @@ def m_7z_extractall(ex, st, obj, args, kwargs, node):
     if h is not None:
         h(ex, st, obj, node)
     st.ghost["extractall_calls"] = st.ghost.get("extractall_calls", 0) + 1
-    ex.exc_any(st.fork(), f"{ex.loc(node)} SevenZipFile.extractall")
+    _exc_any_unless_signal(ex, st.fork(), f"{ex.loc(node)} SevenZipFile.extractall", spec_7z_folders_enc(RV_OF(obj.t)))
     return [(st, NONE)]
 
 
@@ -796,7 +912,7 @@ def install_archive_models(reg):
     reg.ext_models[("with", "SevenZipFile")] = with_7z
     reg.method_models[("SevenZipFile", "needs_password")] = m_7z_needs_password
     reg.method_models[("SevenZipFile", "extractall")] = m_7z_extractall
-    reg.method_models[("SevenZipFile", "list")] = lambda ex, st, o, a, k, n: (ex.exc_any(st.fork(), "SevenZipFile.list"), [(st, VUnk("file_list"))])[1]
+    reg.method_models[("SevenZipFile", "list")] = lambda ex, st, o, a, k, n: (_exc_any_unless_signal(ex, st.fork(), "SevenZipFile.list", z3.BoolVal(False)), [(st, VUnk("file_list"))])[1]
     reg.attr_models[("Folder", "coders")] = lambda ex, st, o: VSeq(NCOD(o.t), lambda j: VTuple([VExt("CoderId", CID(o.t, j)), VUnk("props")]), "tuple")
     reg.method_models[("CoderId", "startswith")] = m_cid_startswith
     # os.path.basename on a str: ASSUMED total and pure
@@ -833,6 +949,10 @@ def archive_contracts(reg):
         target=f"{ARCH}::_should_skip_file", assumed=True, params=[("filename", p_unk()), ("basename", p_unk())],
         result_maker=lambda ex, st, ctx: VBool(z3.Bool(fresh_name("skip"))), raises=[],
         note="verified by the C09 pack (functional contract, raises nothing); here only: total, returns a bool"))
+    out.append(FnContract(
+        target=f"{ARCH}::_process_archive_entry", assumed=True, generator=True,
+        params=[("filename", p_unk()), ("file_data", p_unk()), ("archive_path", p_unk()), ("basename", p_unk())],
+        raises=[], note="verified by the C01 pack: a member failure never escapes (so it cannot reach the RuntimeError handler)"))
     # ---------------- ZIP
     def zf_of(c):
         return ZIP_OF(c.args["file_like"].t)
@@ -956,7 +1076,10 @@ def archive_contracts(reg):
         ensures=[("data-returned-only-for-non-aes-coders", lambda c: z3.Not(is_aes(c.args["coder_id"].t)))],
         raises=[Raises("Exception", sub=True)],
         exc_ensures=[("aes-coder-raises-Bad7zFile-itself", lambda c: z3.Implies(is_aes(c.args["coder_id"].t), z3.And(
-            z3.BoolVal(own(c)), c.ex.uni.subclass_term(c.exc.tidx, "Bad7zFile"))))],
+            z3.BoolVal(own(c)), c.ex.uni.subclass_term(c.exc.tidx, "Bad7zFile")))),
+                     ("dedicated-encryption-signal-only-for-aes-coders", lambda c: z3.Implies(
+                         z3.And(z3.BoolVal(own(c) and aes_signal(c.ex.module.repo)[1]), c.ex.uni.subclass_term(c.exc.tidx, aes_signal(c.ex.module.repo)[0])
+                                if c.ex.uni.known(aes_signal(c.ex.module.repo)[0]) else z3.BoolVal(False)), is_aes(c.args["coder_id"].t)))],
         note="an AES coder is never decoded / passed through: Bad7zFile"))
     EXECUTOR_KW[f"{SEVEN}::SevenZipReader._apply_decoder"] = {"abstract": True, "inline_calls": False}
     return out
@@ -970,10 +1093,15 @@ CEX = z3.Function("epub_member_exists", EpubCtx, S, B)
 ROOT = z3.Function("epub_xml_root", EpubCtx, S, Xml)
 NED = z3.Function("xml_num_EncryptedData", Xml, I)            # EncryptedData descendants (xmlenc namespace)
 EDAT = z3.Function("xml_EncryptedData", Xml, I, Xml)
+HASMETHOD = z3.Function("xmlenc_has_EncryptionMethod", Xml, B)
 ALGO = z3.Function("xmlenc_EncryptionMethod_Algorithm", Xml, S)
 XMLENC_ED_PATH = ".//{http://www.w3.org/2001/04/xmlenc#}EncryptedData"
 FONT_OBFUSCATION = ("http://www.idpf.org/2008/embedding", "http://ns.adobe.com/pdf/enc#RC")   # EPUB OCF 3 §4.4 / Adobe font mangling
 ENCXML, RIGHTS = "META-INF/encryption.xml", "META-INF/rights.xml"
+
+
+def font_obfuscation(ed):
+    return z3.And(HASMETHOD(ed), z3.Or([ALGO(ed) == sv(a) for a in FONT_OBFUSCATION]))
 
 
 def spec_epub_drm(ctx):
@@ -981,7 +1109,7 @@ def spec_epub_drm(ctx):
     spec defines it as a reversible mangling of font files only; all content documents stay readable)."""
     root = ROOT(ctx, sv(ENCXML))
     j = z3.Int("j!epub")
-    real = z3.Exists([j], z3.And(j >= 0, j < NED(root), z3.And([ALGO(EDAT(root, j)) != sv(a) for a in FONT_OBFUSCATION])))
+    real = z3.Exists([j], z3.And(j >= 0, j < NED(root), z3.Not(font_obfuscation(EDAT(root, j)))))
     return z3.Or(CEX(ctx, sv(RIGHTS)), z3.And(CEX(ctx, sv(ENCXML)), real))
 
 
@@ -1009,6 +1137,42 @@ def m_xml_findall(ex, st, obj, args, kwargs, node):
     return [(st, VSeq(NED(obj.t), lambda j: VExt("XmlElem", EDAT(obj.t, j)), "XmlElem"))]
 
 
+XMLENC_METHOD_PATH = "{http://www.w3.org/2001/04/xmlenc#}EncryptionMethod"
+
+
+def m_xml_find(ex, st, obj, args, kwargs, node):
+    """EncryptedData.find('{xmlenc}EncryptionMethod'): the child element or None."""
+    a = args[0].const() if args and isinstance(args[0], VStr) else None
+    if a != XMLENC_METHOD_PATH:
+        return ex.havoc_call(st, "Element.find", args, node)
+    out = []
+    if ex.feasible(st.pc, HASMETHOD(obj.t)):
+        m = VExt("XmlElem")
+        s1 = st.fork().assume(HASMETHOD(obj.t))
+        s1.ghost[("method_of", m.t.get_id())] = Term(obj.t)
+        out.append((s1, m))
+    if ex.feasible(st.pc, z3.Not(HASMETHOD(obj.t))):
+        out.append((st.fork().assume(z3.Not(HASMETHOD(obj.t))), NONE))
+    return out
+
+
+def m_xml_get(ex, st, obj, args, kwargs, node):
+    a = args[0].const() if args and isinstance(args[0], VStr) else None
+    ed = st.ghost.get(("method_of", obj.t.get_id()))
+    if a != "Algorithm" or ed is None:
+        return ex.havoc_call(st, "Element.get", args, node)
+    return [(st, VStr(ALGO(ed.t)))]       # (a missing attribute would be None: treated as some non-listed string)
+
+
+def epub_loop_inv(lc):
+    ctx = lc.entry.lookup("ctx")
+    if not isinstance(ctx, VExt):
+        return z3.BoolVal(False)
+    root = ROOT(ctx.t, sv(ENCXML))
+    j = z3.Int("j!einv")
+    return z3.ForAll([j], z3.Implies(z3.And(j >= 0, j < lc.i), font_obfuscation(EDAT(root, j))), patterns=[EDAT(root, j)])
+
+
 def new_epub_ctx(ex, st, args, kwargs, node):
     ex.exc_any(st.fork(), f"{ex.loc(node)} _EpubContext()")
     f = _fl(args[0]) if args else None
@@ -1020,6 +1184,8 @@ def epub_contracts(reg):
     reg.method_models[("EpubContext", "read_xml_root")] = m_ctx_read_xml_root
     reg.method_models[("EpubContext", "close")] = lambda ex, st, o, a, k, n: [(st, NONE)]     # ASSUMED total
     reg.method_models[("XmlElem", "findall")] = m_xml_findall
+    reg.method_models[("XmlElem", "find")] = m_xml_find
+    reg.method_models[("XmlElem", "get")] = m_xml_get
     reg.ext_models[("new", "_EpubContext")] = new_epub_ctx
 
     def readable(c):
@@ -1027,6 +1193,7 @@ def epub_contracts(reg):
     return [FnContract(
         target=f"{EPUB}::_is_epub_encrypted", params=[("ctx", p_ext("EpubContext"))], raises=[],
         result_maker=lambda ex, st, ctx: VBool(z3.Bool(fresh_name("epub_encrypted"))),
+        loops={0: LoopSpec(inv=epub_loop_inv, label="entries")},      # (used only if the function has a loop over the entries)
         ensures=[("drm-protected-epub-is-detected",
                   lambda c: z3.Implies(z3.And(readable(c), spec_epub_drm(_ft(c, "ctx"))), c.result.t) if _ft(c, "ctx") is not None else z3.BoolVal(True)),
                  ("true-only-if-drm-protected",
@@ -1074,6 +1241,10 @@ def pdf_contracts(reg):
     reg.attr_models[("PdfReader", "pages")] = m_pdf_pages
     reg.method_models[("PdfReader", "decrypt")] = m_pdf_decrypt
     out = []
+    out.append(FnContract(
+        target=X + "pdf/_pypdf_aes_fallback.py::patch_pypdf_fallback_aes", assumed=True, params=[], raises=[],
+        result_maker=lambda ex, st, ctx: VBool(z3.Bool(fresh_name("patched"))),
+        note="ASSUMED total: rebinding of pypdf's AES hooks (the AES itself is C20's subject)"))
     t = f"{PDF}::_open_pdf_reader"
     out.append(FnContract(
         target=t, params=[("file_like", p_ext("BytesIO"))], modifies=("file_like",),
@@ -1389,6 +1560,8 @@ ASSUMED_MODELS = [
     "pypdf.PdfReader(f), .is_encrypted, .decrypt(''), .pages",
     "_DocReader(f) used as a context manager: read() behaves as the verified contract of _DocReader.read on a fresh reader",
     "close() of container / context handles is total",
+    "attribute reads / comparisons on plain data objects raise at most AttributeError / TypeError",
+    "ZipFile.read raises RuntimeError (other than its subclass NotImplementedError) only for an encrypted member",
     "os.path.basename total on str; _should_skip_file total (C09); open_zipfile (C11); router contracts (C07)",
 ]
 BOUNDED = ["C08/encryption.py::spec/bounded#FP-equals-explicit-chain-up-to-16-bytes: recursive chain predicate = explicit chain o_k for streams < 16 bytes (<= 3 records); "
